@@ -2,6 +2,7 @@ import Yv.Model.Core
 import Yv.Model.PackX
 import Yv.Cert.Auto
 import Yv.Cert.Complete
+import Yv.Cert.Canon
 import Yv.Model.Drive
 import Yv.Model.XDrv
 import Yv.Model.Visitor
@@ -108,6 +109,7 @@ def process (out : IO.FS.Stream) (a : CaseAcc) : IO Unit := do
   out.putStrLn s!"V gramWF {verdict (Y.gramWF yg g.nSyms)}"
   out.putStrLn s!"V certA {verdict (Y.certA yg ya)}"
   out.putStrLn s!"V certT {verdict (Y.certT yg g.nSyms ya rows)}"
+  out.putStrLn s!"V certCanon {verdict (Y.certCanon yg ya)}"
   -- lookahead oracle on the implementation's own automaton
   let iau : Auto := { states := a.iStates, gotos := a.iGotos }
   match lalr g iau with
@@ -186,17 +188,49 @@ def evStr : XDrv.Ev → String
   | .shift s q => s!"S:{s}:{q}"
   | .reduce la r q => s!"R:{r}:{q}:{la}"
 
+/-- union value of the X harness: fields `a`, `b` -/
+abbrev XVal := Int × Int
+
+def xField (v : XVal) (tag : Nat) : Int := if tag == 0 then v.1 else v.2
+
+/-- the harness's semantic action of rule r: `$$.tag = (K + Σ cₖ·$k.tagₖ) mod p`, other field zero -/
+def xSem (rules : Array (Option XDrv.RuleD)) (r : Nat) (vals : List XVal) : XVal :=
+  match (rules[r]?).join with
+  | none => (0, 0)
+  | some rd =>
+    let v := ((vals.zip rd.terms).foldl (fun acc (e, (c, tg)) => acc + c * xField e tg) rd.k) % XDrv.MOD
+    if rd.lhsTag == 0 then (v, 0) else (0, v)
+
+/-- The VERIFIED step function `Y.D.step`, iterated with the harness's step limit (the generated
+    actions abort the parse at the (limit+1)-th reduction). -/
+def runLimited (P : Y.D.Params XVal) (limit : Nat) : Nat → Y.D.Cfg XVal → String × Y.D.Cfg XVal × XVal
+  | 0, c => ("crash:fuel", c, (0, 0))
+  | fuel + 1, c =>
+    match Y.D.step P c with
+    | .next c' => if c'.reds.length > limit then ("loop", c', (0, 0)) else runLimited P limit fuel c'
+    | .acc v c' => ("accept", c', v)
+    | .err c' => ("reject", c', (0, 0))
+    | .crash => ("crash", c, (0, 0))
+
+def evStrD : Y.D.Ev → String
+  | .shift s q => s!"S:{s}:{q}"
+  | .reduce la r q => s!"R:{r}:{q}:{la}"
+
 def processX (out : IO.FS.Stream) (x : XAcc) : IO Unit := do
   out.putStrLn s!"XCASE {x.id}"
   let look : XDrv.Look := if x.isPacked then .packed x.act x.off x.chk x.adef x.gdef x.nT else .dense x.rows
-  let t : XDrv.Tabs := { look := look, errC := x.errC, accC := x.accC, rules := x.rules, tok := x.tok,
-                         startTag := x.startTag, stepLimit := x.stepLimit }
+  -- the parameters of the verified driver model, instantiated from the generated file's own literals
+  let P : Y.D.Params XVal :=
+    { L := fun q a => look.get x.errC (q : Int) a, errC := x.errC, accC := x.accC,
+      rule := fun r => ((x.rules[r]?).join).map fun rd => (rd.lhs, rd.n),
+      sem := xSem x.rules, eofVal := (0, 0) }
   for i in [0:x.inputs.size] do
-    let o := XDrv.parse t x.inputs[i]!
-    let v := match o.v with
-      | .accept => "accept" | .reject => "reject" | .loop => "loop" | .crash w => "crash:" ++ w.replace " " "_"
-    out.putStrLn (s!"XR {i} {v} {o.req} {o.val} " ++ nats o.log)
-    if x.wantTrace then out.putStrLn (s!"XT {i} " ++ " ".intercalate (o.trace.map evStr))
+    let inp := x.inputs[i]!
+    let w : List (Nat × XVal) := inp.toList.zipIdx.map fun (c, pos) => ((x.tok[c]?).getD 0, ((pos : Int) + 1, 2 * (pos : Int) + 1))
+    let (v, c, val) := runLimited P x.stepLimit ((x.stepLimit + 10) * (inp.size + 2) + 100) (Y.D.init (0, 0) w)
+    let log := if v == "loop" then [] else c.reds.reverse
+    out.putStrLn (s!"XR {i} {v} {c.req} {xField val x.startTag} " ++ nats log)
+    if x.wantTrace then out.putStrLn (s!"XT {i} " ++ " ".intercalate (c.trace.reverse.map evStrD))
   out.putStrLn "XEND"
 
 def hexVal (c : Char) : Nat :=
